@@ -1,7 +1,7 @@
 (* Props/C02.v — Per-block atomicity and crash consistency of the balance store.
    Only statements, each closed by [exact]; proofs live in Lemmas/. *)
 From Model Require Import Examples Sync SitesSpec.
-From Lemmas Require Import SyncLemmas ChainLemmas RestartLemmas SitesLemmas.
+From Lemmas Require Import SyncLemmas ChainLemmas RestartLemmas SitesC02.
 From Gen Require Import Consts Sites.
 From Coq Require Import String.
 Open Scope list_scope.
